@@ -8,6 +8,7 @@ import (
 
 	"github.com/ipfs/go-cid"
 	unixfsnode "github.com/ipfs/go-unixfsnode"
+	dagpb "github.com/ipld/go-codec-dagpb"
 	"github.com/ipld/go-ipld-prime/datamodel"
 	cidlink "github.com/ipld/go-ipld-prime/linking/cid"
 	"github.com/ipld/go-ipld-prime/node/basicnode"
@@ -710,11 +711,16 @@ func (c05) runDir(ts *tape.Set, tier Tier) *Result {
 					return
 				}
 				monitor(st, allowed, starve, &outside)
-				switch i % 3 {
+				switch i % 4 {
 				case 0:
 					got, lerr = n.LookupByString(name)
 				case 1:
-					got, lerr = n.LookupBySegment(datamodel.PathSegmentOfString(name))
+					got, lerr = n.LookupBySegment(segmentFor(name))
+				case 3:
+					// the key as a directory iterator hands it out
+					nb := dagpb.Type.String.NewBuilder()
+					_ = nb.AssignString(name)
+					got, lerr = n.LookupByNode(nb.Build())
 				default:
 					got, lerr = n.LookupByNode(basicnode.NewString(name))
 				}
